@@ -5,20 +5,20 @@
 package input
 
 //@ func newPtr
-//@   property C09
+//@   property C09 C02 C03 C04 C05 C06 C07 C10 C11 C13 C14 C15 C16 C18
 //@   ensures [nil_iff] (result == nil) <==> (i == nil)
 //@   ensures [value] i != nil ==> *result == *i
 
 // (The merge functions carry every property whose statement ranges over multi-file configurations: the Input that the
 // validators and compile steps see is the merged one.)
 //@ func mergePtr
-//@   property C09 C02 C03 C04 C05 C13 C14 C15 C18
+//@   property C09 C02 C03 C04 C05 C13 C14 C15 C18 C06 C07 C10 C11 C16
 //@   ensures [nil_iff] (result == nil) <==> (a == nil && b == nil)
 //@   ensures [later_wins] b != nil ==> *result == *b
 //@   ensures [earlier_kept] b == nil && a != nil ==> *result == *a
 
 //@ func mergeMap
-//@   property C09 C08 C02 C03 C04 C05 C13 C14 C15
+//@   property C09 C08 C02 C03 C04 C05 C13 C14 C15 C06 C07 C10 C11 C16 C18
 //@   ensures [nil_iff] (result == nil) <==> (a == nil && b == nil)
 //@   ensures [dom] forall k string :: (k in result) <==> (k in a || k in b)
 //@   ensures [later_wins] forall k string :: k in b ==> result[k] == b[k]
@@ -55,7 +55,7 @@ package input
 //@      len(x) == len(y) && ((x == nil) <==> (y == nil)) && (forall j int :: 0 <= j && j < len(x) ==> x[j] == y[j])
 
 //@ func mergeMeta
-//@   property C09 C02 C03 C04 C05 C13 C14 C15
+//@   property C09 C02 C03 C04 C05 C13 C14 C15 C06 C07 C10 C11 C16 C18
 //@   ensures [pkg] optMerged(result.Pkg, m1.Pkg, m2.Pkg)
 //@   ensures [container_type] optMerged(result.ContainerType, m1.ContainerType, m2.ContainerType)
 //@   ensures [container_constructor] optMerged(result.ContainerConstructor, m1.ContainerConstructor, m2.ContainerConstructor)
@@ -65,12 +65,12 @@ package input
 //@   ensures [functions C09 C15 C03] mapMergedSS(result.Functions, m1.Functions, m2.Functions)
 
 //@ func mergeArgs
-//@   property C09 C02 C03 C04 C05 C13 C14 C15
+//@   property C09 C02 C03 C04 C05 C13 C14 C15 C06 C07 C10 C11 C16 C18
 //@   ensures [later_nonempty_replaces] len(b) > 0 ==> sameAnys(result, b)
 //@   ensures [earlier_kept] len(b) == 0 ==> sameAnys(result, a)
 
 //@ func mergeService pure
-//@   property C09 C04 C02 C03 C05 C13 C14 C15
+//@   property C09 C04 C02 C03 C05 C13 C14 C15 C06 C07 C10 C11 C16 C18
 //@   ensures [getter] optMerged(result.Getter, s1.Getter, s2.Getter)
 //@   ensures [must_getter] optMergedBool(result.MustGetter, s1.MustGetter, s2.MustGetter)
 //@   ensures [type] optMerged(result.Type, s1.Type, s2.Type)
@@ -91,7 +91,7 @@ package input
 //@   ensures [tags_later_by_pos] forall q int :: len(s1.Tags) <= q && q < len(s1.Tags) + len(s2.Tags) ==> result.Tags[q] == s2.Tags[q - len(s1.Tags)]
 
 //@ func mergeServices
-//@   property C09 C02 C03 C04 C05 C13 C14 C15
+//@   property C09 C02 C03 C04 C05 C13 C14 C15 C06 C07 C10 C11 C16 C18
 //@   ensures [nonnil] result != nil
 //@   ensures [dom] forall k string :: (k in result) <==> (k in a || k in b)
 //@   ensures [only_earlier] forall k string :: k in a && !(k in b) ==> result[k] == a[k]
@@ -109,7 +109,7 @@ package input
 //@     invariant [both] forall k string :: k in visited && k in a ==> r[k] == mergeService(a[k], b[k])
 
 //@ func Merge pure
-//@   property C09 C04 C02 C03 C05 C13 C14 C15 C18
+//@   property C09 C04 C02 C03 C05 C13 C14 C15 C18 C06 C07 C10 C11 C16
 //@   ensures [version] optMergedVersion(result.Version, i1.Version, i2.Version)
 //@   ensures [meta_pkg] optMerged(result.Meta.Pkg, i1.Meta.Pkg, i2.Meta.Pkg)
 //@   ensures [meta_container_type] optMerged(result.Meta.ContainerType, i1.Meta.ContainerType, i2.Meta.ContainerType)
@@ -205,7 +205,7 @@ package input
 // callback and the target type (decodeErr / decoded; assumed of yaml.v3). A version that is not a YAML string, or a
 // string that is not a semantic version once "v" is put in front, is a parse error for every build.
 //@ func (*Version).UnmarshalYAML
-//@   property C18 C12 C11
+//@   property C18 C12 C11 C02 C03 C04 C05 C06 C07 C09 C10 C13 C14 C15 C16
 //@   modifies *v
 //@   ensures [accepted_is_semver_without_v] result == nil ==> svValid("v" + string(*v))
 //@   ensures [rejected_unchanged] result != nil ==> *v == old(*v)
@@ -247,7 +247,7 @@ package input
 //@     invariant [only_keywords] forall s string :: s in mapStringScope ==> (exists k Scope :: k in visited && mapScopeString[k] == s)
 
 //@ func (*Scope).UnmarshalYAML
-//@   property C05 C11 C12
+//@   property C05 C11 C12 C02 C03 C04 C06 C07 C09 C10 C13 C14 C15 C16 C18
 //@   modifies *s
 //@   ensures [accepted_is_keyword_value] result == nil ==> (*s == ScopeShared || *s == ScopeContextual || *s == ScopeNonShared)
 //@   ensures [rejected_unchanged] result != nil ==> *s == old(*s)
@@ -259,7 +259,7 @@ package input
 // C04 / C11: a tag is either a plain string (priority 0) or a mapping with a string name and an optional int priority
 // (default 0); anything else is rejected.
 //@ func (*Tag).UnmarshalYAML
-//@   property C04 C11 C12
+//@   property C04 C11 C12 C02 C03 C05 C06 C07 C09 C10 C13 C14 C15 C16 C18
 //@   modifies *t
 //@   ensures [decoder_error_is_reported] decodeErr(unmarshal, "any") != nil ==> result != nil
 //@   ensures [accepted_iff_string_or_well_formed_mapping @a] decodeErr(unmarshal, "any") == nil ==> ((result == nil) <==>
@@ -273,7 +273,7 @@ package input
 // C02 / C11: a call is a sequence of one to three elements: the method (a string), the arguments (a sequence) and the
 // immutable flag (a bool); each element that is present must have its kind - an explicit null is not an omitted element.
 //@ func (*Call).UnmarshalYAML
-//@   property C02 C11 C12
+//@   property C02 C11 C12 C03 C04 C05 C06 C07 C09 C10 C13 C14 C15 C16 C18
 //@   modifies *c
 //@   ensures [decoder_error_is_reported] decodeErr(unmarshal, "[]any") != nil ==> result != nil
 //@   ensures [accepted_iff_call_shape @a] decodeErr(unmarshal, "[]any") == nil ==> ((result == nil) <==>
